@@ -22,6 +22,21 @@ def cases(tier, rng):
                     continue
                 line = "c17 %s %d %s" % (c, n, side)
                 cs.append({"line": line, "key": line, "tags": {"carrier": c, "n": n, "side": side}})
+    # run on the implementation only: the listener's direct forward path (no tunnel), a physical session older than the handshake's
+    # time limit (1 s here), and a second logical connection open on the same session throughout
+    for side in ("app", "target"):
+        for n in ((0, 1000, 100000, 1 << 20) if thorough else (1000, 100000)):
+            line = "c17 forward %d %s" % (n, side)
+            cs.append({"line": line, "key": line, "model": False, "tags": {"carrier": "forward", "n": n, "side": side}})
+    for c in (CARRIERS if thorough else ["tcp", "tcp-starttls", "ws", "kcp"]):
+        if c == "dns":
+            continue
+        for side in ("app", "target"):
+            line = "c17 %s 100000 %s aged" % (c, side)
+            cs.append({"line": line, "key": line, "model": False, "tags": {"carrier": c, "n": 100000, "side": side, "variant": "aged"}})
+            if thorough or c == "tcp":
+                line = "c17 %s 100000 %s other-open" % (c, side)
+                cs.append({"line": line, "key": line, "model": False, "tags": {"carrier": c, "n": 100000, "side": side, "variant": "other-open"}})
     return cs
 
 
@@ -33,7 +48,7 @@ def oracle(case, impl):
     f = dict(zip(p[0::2], p[1::2]))
     out = []
     if int(f["got"]) != t["n"] or int(f["diff"]) != -1:
-        out.append(("data-lost-on-close;carrier=%s;closer=%s" % (t["carrier"], t["side"]), "%s of %d bytes arrived before the close (%s)" % (f["got"], t["n"], case["line"])))
+        out.append(("data-lost-on-close;carrier=%s;closer=%s%s" % (t["carrier"], t["side"], ";" + t["variant"] if t.get("variant") else ""), "%s of %d bytes arrived before the close (%s)" % (f["got"], t["n"], case["line"])))
     if f["eof"] != "1":
         out.append(("no-eof;carrier=%s;closer=%s" % (t["carrier"], t["side"]), "the other end did not see end-of-stream within the bound (%s)" % case["line"]))
     return out
